@@ -10,11 +10,14 @@ export GOFLAGS=-mod=mod GOPROXY=off GOSUMDB=off GOTOOLCHAIN=local
 if ! go build ./... 2>/tmp/trymut.build; then echo "BUILD FAILS"; head -5 /tmp/trymut.build; fi
 T=$(go test -count=1 ./... 2>&1 | grep -v "no test files" | grep -v "^ok" | head -5)
 if [ -n "$T" ]; then echo "REPO TESTS FAIL: $T"; else echo "repo tests pass"; fi
+# the evidence files describe the unchanged tree: keep them out of reach of these runs
+EVB=$(mktemp -d /tmp/trymut.ev.XXXXXX); cp -a /verif/evidence/. "$EVB"/
 for c in "$@"; do
   OUT=$(cd /verif && ./check "$c" quick 2>&1)
   RC=$?
   N=$(echo "$OUT" | grep -c "^VIOLATION")
   echo "$c exit=$RC violation_lines=$N :: $(echo "$OUT" | grep -A1 '^VIOLATION' | grep 'class=' | head -3 | cut -c1-160 | tr '\n' '|')"
 done
+cp -a "$EVB"/. /verif/evidence/; rm -rf "$EVB"
 cd /repo && git checkout -- . && git clean -fdq
 [ -z "$(git status --porcelain)" ] && echo "repo restored"
